@@ -299,7 +299,8 @@ struct Registry {
     std::vector<std::string> notes;
     std::vector<std::string> mxcsr_changes;
     double t0;
-    Registry() : t0(0) {}
+    std::uint64_t bfs_states, bfs_transitions;  // state explorers: distinct states visited / transitions executed
+    Registry() : t0(0), bfs_states(0), bfs_transitions(0) {}
 };
 
 inline Registry& reg() {
@@ -358,8 +359,8 @@ inline int write_results(const char* tu, const char* part) {
     if (opt().replay) return 0;  // replay prints its own verdict line
     FILE* f = opt().out.empty() ? stdout : std::fopen(opt().out.c_str(), "w");
     if (!f) { std::perror("open out"); return 2; }
-    std::fprintf(f, "{\"tu\":%s,\"part\":%s,\"tier\":%s,\"wall_s\":%.3f,\n \"stats\":[\n", jstr(tu).c_str(),
-                 jstr(part).c_str(), opt().thorough ? "\"thorough\"" : "\"quick\"", now_s() - r.t0);
+    std::fprintf(f, "{\"tu\":%s,\"part\":%s,\"tier\":%s,\"wall_s\":%.3f,\"bfs_states\":%s,\"bfs_transitions\":%s,\n \"stats\":[\n", jstr(tu).c_str(),
+                 jstr(part).c_str(), opt().thorough ? "\"thorough\"" : "\"quick\"", now_s() - r.t0, u64s(r.bfs_states).c_str(), u64s(r.bfs_transitions).c_str());
     for (std::size_t i = 0; i < r.stats.size(); ++i) {
         const Stat& s = *r.stats[i];
         std::fprintf(f, "  {\"subject\":%s,\"op\":%s,\"domain\":%s,\"evals\":%s,\"distinct\":%s,\"nontrivial\":%s,\"fails\":%s,\"fp\":%s,\"digest\":%s,\"signal\":%d,\n   \"witnesses\":[",
